@@ -116,7 +116,55 @@ func refill(dst, src map[string]interface{}) {
 	}
 }
 
+// deepCopyTyped copies Go-typed inputs (core.Map, []string, []core.Map, []int, ints) preserving their types.
+func deepCopyTyped(x interface{}) interface{} {
+	switch v := x.(type) {
+	case core.Map:
+		n := make(core.Map, len(v))
+		for k, y := range v {
+			n[k] = deepCopyTyped(y)
+		}
+		return n
+	case map[string]interface{}:
+		n := make(map[string]interface{}, len(v))
+		for k, y := range v {
+			n[k] = deepCopyTyped(y)
+		}
+		return n
+	case []interface{}:
+		n := make([]interface{}, len(v))
+		for i, y := range v {
+			n[i] = deepCopyTyped(y)
+		}
+		return n
+	case []string:
+		return append([]string{}, v...)
+	case []int:
+		return append([]int{}, v...)
+	case []core.Map:
+		n := make([]core.Map, len(v))
+		for i, y := range v {
+			n[i] = deepCopyTyped(y).(core.Map)
+		}
+		return n
+	default:
+		return x
+	}
+}
+
 func init() {
+	// kind "bind": Bindings.Bind (query.go) on a pattern; the model's counterpart is `subst`
+	register("bind", func(c map[string]interface{}) interface{} {
+		bs := core.Bindings{}
+		if m, ok := c["bs"].(map[string]interface{}); ok {
+			for k, v := range m {
+				bs[k] = v
+			}
+		}
+		p := deepCopy(c["p"])
+		got := bs.Bind(newCtx(), p)
+		return okR(roundTrip(got))
+	})
 	// kind "matchseq": several matches in a row that REUSE the same Go map objects for pattern, data and bindings,
 	// rewritten in place between the calls (a caller is free to do that; the matcher must not remember anything)
 	register("matchseq", func(c map[string]interface{}) interface{} {
@@ -172,6 +220,7 @@ func init() {
 		}
 		pin, din := goTyped(p, mode, true), goTyped(d, mode, true)
 		p0, d0, b0 := deepCopy(p), deepCopy(d), deepCopy(map[string]interface{}(bs))
+		pin0, din0 := deepCopyTyped(pin), deepCopyTyped(din)
 		reps := 1
 		if f, ok := c["reps"].(float64); ok {
 			reps = int(f)
@@ -191,6 +240,9 @@ func init() {
 			}
 			if mode == 0 && (!reflect.DeepEqual(p0, p) || !reflect.DeepEqual(d0, d)) || !reflect.DeepEqual(b0, deepCopy(map[string]interface{}(bs))) {
 				out["mutated"] = true
+			}
+			if !reflect.DeepEqual(pin0, pin) || !reflect.DeepEqual(din0, din) {
+				out["mutated"] = true // the caller's (Go-typed) pattern or data was rewritten, e.g. ints turned into floats in place
 			}
 			outs = append(outs, out)
 		}
